@@ -43,6 +43,9 @@ func init() {
 	regSafety("C03", mkC03, shC03)
 	regSafety("C04", mkC04, shC04)
 	regSafety("C10", mkC10, shC10)
+	replayers["C10"] = append(replayers["C10"], func(vals []int, keepLog bool) *sim.World {
+		return RunViewStorm(&ReplaySrc{Vals: vals}, mkC10(), keepLog)
+	})
 	regSafety("C05", mkC05, shC05)
 	regSafety("C07", mkC07, shC07)
 	regSafety("C11", mkC11, shC11)
@@ -83,10 +86,26 @@ func TestC04(t *testing.T) {
 }
 
 func TestC10(t *testing.T) {
-	runProp(t, "C10", func(e *Env) func(*rapid.T) {
-		return SafetyProp(e, mkC10, shC10, func(w *sim.World) bool {
-			return w.Stats["c10_timeout_consumed"] > 0 || w.Stats["c10_view_changed"] > 0
+	SkipUnlessSelected(t, "C10")
+	e := GetEnv("C10")
+	defer e.Flush()
+	rapid.Check(t, SafetyProp(e, mkC10, shC10, func(w *sim.World) bool {
+		return w.Stats["c10_timeout_consumed"] > 0 || w.Stats["c10_view_changed"] > 0
+	}))
+	if t.Failed() {
+		return
+	}
+	// view storms: one node driven through dozens of views, the clock jumping to every deadline
+	rapid.Check(t, func(t *rapid.T) {
+		src := &RapidSrc{T: t}
+		w := RunViewStorm(src, mkC10(), false)
+		fatal := e.Report(w, src.Rec, func() string {
+			return RunViewStorm(&ReplaySrc{Vals: src.Rec}, mkC10(), true).Render()
 		})
+		e.Case(FPInts(src.Rec), w.Stats["c10_view_changed"] > 0, w.Stats, func() any { return sampleOf(w, src.Rec) })
+		if fatal != "" {
+			t.Fatalf("%s", fatal)
+		}
 	})
 }
 
